@@ -20,6 +20,12 @@ import time
 
 VERIF = os.path.dirname(os.path.abspath(__file__))
 sys.path.insert(0, VERIF)
+try:  # the SMT front end (z3 python package) lives in the tooling venv
+    import z3  # noqa: F401
+except ImportError:
+    if os.environ.get("VERIF_REEXEC") != "1":
+        os.environ["VERIF_REEXEC"] = "1"
+        os.execvp("python3-vt", ["python3-vt"] + sys.argv)
 from vlib import kani_runner as KR  # noqa: E402
 from vlib import obligations as OB  # noqa: E402
 
@@ -108,7 +114,8 @@ def main():
         jobs = []
         for o in obs:
             j = {"harness": o["harness"], "cap": o["cap"][0 if tier == "quick" else 1] if isinstance(o["cap"], tuple) else o["cap"],
-                 "mem": o.get("mem", 12), "extra": o.get("extra", ()), "must_cover": o.get("must_cover")}
+                 "mem": o.get("mem", 12), "extra": o.get("extra", ()), "must_cover": o.get("must_cover"),
+                 "unwindset": o.get("unwindset")}
             jobs.append(j)
         if eng == "kani":
             rs = KR.run_many(jobs, nslots, log, logdir)
